@@ -125,7 +125,7 @@ class DAGRunConcurrentManager(DAGRunManagerLike):
         """
 
         for coro_task in coro_tasks:
-            if coro_task.done() and isinstance(coro_task.exception(), BaseException):
+            if coro_task.done() and not coro_task.cancelled() and isinstance(coro_task.exception(), BaseException):
                 return coro_task.exception()
 
         return None
